@@ -518,7 +518,25 @@ func reformat(sc *Scenario, format string) *Scenario {
 	conv.Methods = nil
 	n.Conv = &conv
 	n.Methods = nil
-	newID := sc.ID + map[string]string{"function": "F", "variables": "V", "variables-moved": "M", "reordered": "O"}[format]
+	if format == "noise" {
+		// settings that only concern update methods and default constructors must not change any other method
+		for _, m := range sc.Methods {
+			if m.M == nil || m.M.Update || m.M.Default != nil {
+				return nil
+			}
+			for _, l := range m.Lines {
+				if strings.HasPrefix(l, "update") || strings.HasPrefix(l, "default") {
+					return nil
+				}
+			}
+		}
+		for _, l := range sc.ConvLines {
+			if strings.HasPrefix(l, "update") || strings.HasPrefix(l, "default") {
+				return nil
+			}
+		}
+	}
+	newID := sc.ID + map[string]string{"function": "F", "variables": "V", "variables-moved": "M", "reordered": "O", "noise": "N"}[format]
 	ren := func(name string) string { return name + "X" + newID } // carries the case id for compile-error attribution
 	if format == "reordered" {
 		// struct format; every method but the tested one gets a name that sorts before it (methods are processed in
@@ -565,6 +583,19 @@ func reformat(sc *Scenario, format string) *Scenario {
 		n.ID = sc.ID + "V"
 		n.Variables = true
 		conv.OutPkg = "conv"
+	case "noise":
+		n.ID = sc.ID + "N"
+		n.ConvLines = append([]string{"update:ignoreZeroValueField", "default:update"}, n.ConvLines...)
+		noise := func(st *model.Settings) { st.ZeroBasic, st.ZeroStruct, st.ZeroNillable, st.DefaultUpdate = true, true, true, true }
+		noise(&conv.Set)
+		for _, m := range conv.Methods {
+			noise(&m.Set)
+		}
+		for _, m := range n.Methods {
+			if m.M != nil {
+				noise(&m.M.Set)
+			}
+		}
 	case "reordered":
 		n.ID = sc.ID
 	case "variables-moved":
